@@ -189,6 +189,7 @@ func init() {
 		wireArgOrder(wc, r, "C01")
 		wireTables(w, r, "C01")
 		wireOrder(wc, r, "C01", "enc")
+		wireDecimalLiterals(w, r, "C01")
 		wirePaddingSiblings(wc, r, "C01")
 		wireAssumptions(r)
 	})
@@ -203,6 +204,7 @@ func init() {
 		wireArms(wc, r, "C02", "dec")
 		wireLEColumn(wc, r, "C02", "dec")
 		wireArgOrder(wc, r, "C02")
+		wirePairDedup(w, wc, r, "C02/decode-arm-per-key", "dec")
 		wireOrder(wc, r, "C02", "dec")
 		wireAssumptions(r)
 	})
@@ -1054,6 +1056,41 @@ func wireTables(w *World, r *Report, prop string) {
 		} else {
 			r.fail(rule, t.name+" covers the prefix types", "internal/parser", "no row for prefix type(s) "+strings.Join(missing, ", "))
 		}
+	}
+}
+
+// wireDecimalLiterals: the grammar's numeric token is a plain decimal digit string (DIGITS: [0-9]+, leading zeros allowed); every
+// conversion of token text to a number in the parse phase must read it base 10 - base 0 turns char[010] into an 8 byte field.
+func wireDecimalLiterals(w *World, r *Report, prop string) {
+	rule := prop + "/decimal-literals"
+	n := 0
+	for _, fn := range parsePhaseFuncs(w) {
+		cnt := 0
+		forEachInstr(fn, func(b *ssa.BasicBlock, ins ssa.Instruction) {
+			c, ok := ins.(ssa.CallInstruction)
+			if !ok || c.Common().StaticCallee() == nil {
+				return
+			}
+			name := c.Common().StaticCallee().String()
+			switch name {
+			case "strconv.Atoi":
+				n++
+				cnt++
+				r.pass(rule, fmt.Sprintf("%s number conversion #%d reads base 10", fnKey(fn), cnt), w.instrPos(ins), "strconv.Atoi")
+			case "strconv.ParseInt", "strconv.ParseUint":
+				n++
+				cnt++
+				key := fmt.Sprintf("%s number conversion #%d reads base 10", fnKey(fn), cnt)
+				if k, ok := c.Common().Args[1].(*ssa.Const); ok && k.Value != nil && k.Int64() == 10 {
+					r.pass(rule, key, w.instrPos(ins), name+"(.., 10, ..)")
+				} else {
+					r.fail(rule, key, w.instrPos(ins), name+" is not called with base 10: a DIGITS token with a leading zero (legal, decimal in the grammar) is read as octal or rejected, so the declared size/tag silently changes")
+				}
+			}
+		})
+	}
+	if n == 0 {
+		r.fail(rule, "number conversions found", "internal/parser/packet_dsl_parser.go", "no conversion of a DIGITS token found in the parse phase: array sizes cannot reach the model")
 	}
 }
 
